@@ -1,82 +1,2 @@
--- GENERATED by tools/gendrivers.py; do not edit
-import TmVerif.Facts.ExpectC18
-import TmVerif.Facts.Types
-import TmVerif.Model.Bison
-import TmVerif.Model.CFG
-import TmVerif.Model.Charset
-import TmVerif.Model.Determinism
-import TmVerif.Model.Diff
-import TmVerif.Model.DriverC01
-import TmVerif.Model.DriverC02
-import TmVerif.Model.DriverC03
-import TmVerif.Model.DriverC04
-import TmVerif.Model.DriverC05
-import TmVerif.Model.DriverC06
-import TmVerif.Model.DriverC07
-import TmVerif.Model.DriverC08
-import TmVerif.Model.DriverC10
-import TmVerif.Model.DriverC19
-import TmVerif.Model.DriverC24
-import TmVerif.Model.DriverC25
-import TmVerif.Model.DriverC26
-import TmVerif.Model.DriverC27
-import TmVerif.Model.DriverC28
-import TmVerif.Model.DriverC29
-import TmVerif.Model.DriverC30
-import TmVerif.Model.Drivers
-import TmVerif.Model.Graph
-import TmVerif.Model.Ident
-import TmVerif.Model.IntSet
-import TmVerif.Model.LR
-import TmVerif.Model.LRAccept
-import TmVerif.Model.LRCheck
-import TmVerif.Model.LRK
-import TmVerif.Model.LRProto
-import TmVerif.Model.LRRef
-import TmVerif.Model.LRSound
-import TmVerif.Model.LRX
-import TmVerif.Model.LRXProto
-import TmVerif.Model.LS
-import TmVerif.Model.LexTables
-import TmVerif.Model.Lookahead
+-- Library root. Modules are built by name (`lake build TmVerif.Props.Cxx tmv`), see setup.sh and check.
 import TmVerif.Model.Proto
-import TmVerif.Model.Regex
-import TmVerif.Model.ShiftDfa
-import TmVerif.Model.UnicodeFold
-import TmVerif.Proofs.Bison
-import TmVerif.Proofs.Charset
-import TmVerif.Proofs.Diff
-import TmVerif.Proofs.DiffApply
-import TmVerif.Proofs.DiffHunks
-import TmVerif.Proofs.DiffText
-import TmVerif.Proofs.GraphBasic
-import TmVerif.Proofs.GraphPath
-import TmVerif.Proofs.GraphScc
-import TmVerif.Proofs.GraphTarjan
-import TmVerif.Proofs.Ident
-import TmVerif.Proofs.IdentDup
-import TmVerif.Proofs.IntSet
-import TmVerif.Proofs.LRSound
-import TmVerif.Proofs.LRSoundAccept
-import TmVerif.Proofs.LRSoundInv
-import TmVerif.Proofs.LRSoundStep
-import TmVerif.Proofs.LSChain
-import TmVerif.Proofs.LSPos
-import TmVerif.Proofs.LexTables
-import TmVerif.Proofs.Lookahead
-import TmVerif.Proofs.LookaheadOrder
-import TmVerif.Proofs.Regex
-import TmVerif.Proofs.ShiftDfa
-import TmVerif.Props.C01
-import TmVerif.Props.C03
-import TmVerif.Props.C04
-import TmVerif.Props.C05
-import TmVerif.Props.C06
-import TmVerif.Props.C07
-import TmVerif.Props.C08
-import TmVerif.Props.C10
-import TmVerif.Props.C24
-import TmVerif.Props.C25
-import TmVerif.Props.C26
-import TmVerif.Props.C27
-import TmVerif.Props.C28
